@@ -8,32 +8,34 @@ PROOF_MODULES = ["GrpcProofs.Properties.C40"]
 THEOREMS = ["GrpcProofs.C40." + t for t in (
     "run_reach", "eject_only_if_volume_and_criterion", "fp_criterion_exact_where_float_agrees",
     "sr_criterion_is_mean_minus_stdev", "only_the_interval_timer_ejects",
-    "no_eject_at_or_above_max_percent_partial", "timer_loops_are_InFire", "no_eject_at_or_above_max_percent_counterexample",
-    "true_count_le_counter", "counter_equals_true_count_partial",
-    "counter_equals_true_count_counterexample_removed", "counter_equals_true_count_counterexample_reejected",
+    "no_eject_at_or_above_max_percent", "timer_loops_are_InFire", "already_ejected_is_skipped",
+    "counter_equals_true_count",
     "uneject_rule_step", "uneject_after_rule", "uneject_only_in_timer_or_noop",
     "ejected_looks_TF_to_child_partial", "scw_ejected_iff_endpoint_ejected", "ejected_endpoint_never_looks_healthy",
-    "ejected_looks_TF_to_child_counterexample", "noop_config_unejects_all", "noop_config_unejects_all_subconns")]
+    "ejected_looks_TF_to_child_counterexample", "noop_config_unejects_all", "noop_config_unejects_all_subconns",
+    "noop_config_resets_counter")]
 DESIGN_REF = "DESIGN.md section 8, C40"
 TECHNIQUE = ("Lean 4 theorems over an executable model of the balancer (exact rational success-rate criterion, bit-exact binary64 for the "
              "two percentage comparisons, map order and random draws as explicit arguments) + T2 correspondence: the real balancer under "
              "testing/synctest with a stub child, recording ClientConn and metrics recorder, diffed state-for-state after every operation")
 LEVEL_TEXT = ("Machine-checked proofs, for every history of calls, timer firings, config changes and endpoint updates, every map iteration "
               "order and every sequence of random draws: an endpoint becomes ejected only in the interval timer and only with request "
-              "volume, enough hosts and a failed criterion; the counter never under-counts, so with an exact percentage comparison no "
-              "ejection happens at or above max_ejection_percent; un-ejection follows min(base*mult, max(base, max_ejection_time)); an "
-              "ejected sub-connection never shows a healthy state to the child; a no-op config un-ejects everything. The three places "
-              "where the unchanged code breaks the statement (counter drift, binary64 percentage, missing TRANSIENT_FAILURE on late "
-              "listener registration) are proved as counterexamples on the model and reported by the monitor on the real balancer.")
+              "volume, enough hosts and a failed criterion; numEndpointsEjected always equals the number of ejected current endpoints, "
+              "so no ejection happens at or above max_ejection_percent (integer comparison); an endpoint that is ejected is never "
+              "ejected again; un-ejection follows min(base*mult, max(base, max_ejection_time)); an ejected endpoint's sub-connections "
+              "never show a healthy state to the child; a no-op config un-ejects everything and resets the counter. The place where "
+              "the code still breaks the statement (missing TRANSIENT_FAILURE on late listener registration, F5d) is proved as a "
+              "counterexample on the model and reported by the monitor on the real balancer.")
 LEVEL_NOTE = ("Trusted: Lean kernel; the hand model in lean/GrpcModel/Model/Outlier.lean (tied by the differential run: every field of "
               "every endpointInfo, numEndpointsEjected, timer start, deliveries to the child and pickers sent to the parent are compared "
-              "after every op). Readings: (1) the success-rate criterion is evaluated exactly over Q in the model and in binary64 in the "
-              "code (it contains a square root); when an endpoint is within 1e-9 of the threshold the comparison of that case is "
-              "suspended (model output `*`) and the ejection is not judged - with identical success rates on all hosts and "
-              "stdev_factor < 1000 the real code can eject every host (observation, not listed as a finding). (2) failure percentage: "
-              "A50 says `greater than`, config.go `greater than or equal`; the monitor accepts ejection at equality (11 of 20 calls, "
-              "threshold 55 is ejected by binary64 rounding). (3) `appear TRANSIENT_FAILURE to the child`: the last state delivered to "
-              "the child's registered health listener is TRANSIENT_FAILURE (raw connectivity updates pass through by design, A61). "
+              "after every op). The model ports the code after the repairs 7e59030 (F5a), da1d093 (F5b), 239aef5 (F5c); reverting any "
+              "of them makes the monitor report the old violation again. Readings: (1) the success-rate criterion is evaluated exactly "
+              "over Q in the model and in binary64 in the code (it contains a square root); when an endpoint is within 1e-9 of the "
+              "threshold the comparison of that case is suspended (model output `*`) and the ejection is not judged, except when all "
+              "considered hosts have the same rate (then no host may be ejected: F5e). (2) failure percentage: A50 says `greater "
+              "than`, config.go `greater than or equal`; the monitor accepts ejection at equality (11 of 20 calls, threshold 55 is "
+              "ejected by binary64 rounding). (3) `appear TRANSIENT_FAILURE to the child`: the last state delivered to the child's "
+              "registered health listener is TRANSIENT_FAILURE (raw connectivity updates pass through by design, A61); F5d. "
               "(4) title clause `counts ejections correctly`: numEndpointsEjected equals the number of ejected current endpoints.")
 GAP = ("binary64 evaluation of mean/stddev (order dependent); uint32 bucket overflow; int64 overflow of base*multiplier; endpoints with "
        "several addresses; picks racing with the swap of the buckets; interval 0")
@@ -357,7 +359,7 @@ def sc_early_ready(rng):
 
 
 def witness_float_share():
-    """F5b: 50 endpoints, max_ejection_percent 58, 29 ejected: float64(29)/float64(50)*100 < 58"""
+    """F5b (fixed by da1d093): 50 endpoints, max_ejection_percent 58, 29 ejected: float64(29)/float64(50)*100 < 58"""
     sim = Sim()
     ids = list(range(1, 51))
     sim.cfg(1000, 100000, 300000, 58, None, (50, 100, 1, 1), ids)
